@@ -7,6 +7,7 @@ from .. import paths, normalize
 from ..core import AnalysisError, norm, walk_no_nested
 from ..strlang import Cat, Lit, Slot, Star
 from .deb822model import Model, KEY_RE
+from . import common
 
 META = {
     'design_ref': 'DESIGN.md §5 C02',
@@ -666,6 +667,14 @@ def r8_piecewise_encoding(rep, src):
                         val = binds[0].value.value
                     elif not binds and isinstance(mod.consts.get('', {}).get(codec.id), str):
                         val = mod.consts[''][codec.id]              # a module-level constant
+            elif isinstance(codec, ast.Attribute) and isinstance(codec.value, ast.Name) and codec.value.id in ('self', 'cls') and f.cls:
+                # a class-level constant that no method of the class family re-binds
+                node_, _c = mod.class_const_node(f.cls, codec.attr)
+                family_ = [c2 for c2 in mod.classes if f.cls in mod.mro(c2) or c2 in mod.mro(f.cls)]
+                rebound_ = any(isinstance(x_, ast.Attribute) and isinstance(x_.ctx, ast.Store) and x_.attr == codec.attr
+                               for q2, g2 in mod.funcs.items() if q2.split('.')[0] in family_ for x_ in ast.walk(g2.node))
+                if isinstance(node_, ast.Constant) and isinstance(node_.value, str) and not rebound_:
+                    val = node_.value
             if isinstance(val, str) and val.lower().replace('_', '-') in PLAIN_CODECS:
                 rep.ok('C02.R8', f.site, what, 'codec %r writes no signature' % val)
             else:
@@ -870,3 +879,4 @@ def check(src, rep, tier):
     rep.guard('C02.R8', r8_piecewise_encoding, src)
     rep.need('C02.R9', 2)
     rep.guard('C02.R9', r9_paragraphs_share_no_container, src)
+    rep.guard('C02.R9', common.check_class_level_mutables, src, 'C02.R9', 'deb822', 'the result of reading one document then depends on which documents were read before it in the same process (the input form of an EARLIER object decides how a later one is decoded)')
